@@ -500,9 +500,9 @@ def prologueAnswer (mode reopenS tailS stateS contentS extraS : String) : String
       { kind := if mode == "poll" then .poll else .notify, reopen := reopenS == "1", tail := tailS == "1" }
     let nl (ls : List (List UInt8)) : List UInt8 := ls.flatMap fun l => l ++ [10]
     let cb := nl content
-    let o := Rare.C15.Open.prologue w st cb.length
+    let fo := Rare.C15.Open.following w st cb.length
     let lines := splitNl (Rare.C15.Open.delivers w st cb (nl extra))
-    s!"ok closed={bit (!o.started)} errors={o.errors} started={bit o.started} lines={Proto.hexList lines}"
+    s!"ok closed={bit (!fo)} errors={Rare.C15.Open.totalErrors w st cb.length} following={bit fo} lines={Proto.hexList lines}"
   | _, _, _ => "bad-args"
 
 def cliAnswer (spec : String) : String :=
